@@ -34,8 +34,8 @@ def is_fn(node):
 
 # ------------------------------------------------------------------ generation
 class Gen:
-    def __init__(self, rng, kinds, fkinds, max_depth=6, nested_fn_p=0.06, else_single_if_ok=True, curried=False):
-        self.rng, self.kinds, self.fkinds, self.curried = rng, kinds, fkinds, curried
+    def __init__(self, rng, kinds, fkinds, max_depth=6, nested_fn_p=0.06, else_single_if_ok=True, curried=False, nobrace=False):
+        self.rng, self.kinds, self.fkinds, self.curried, self.nobrace = rng, kinds, fkinds, curried, nobrace
         self.max_depth, self.nested_fn_p, self.else_single_if_ok = max_depth, nested_fn_p, else_single_if_ok
         self.counter = 0
 
@@ -52,6 +52,14 @@ class Gen:
             return ["Simple", []]
         if r.random() < self.nested_fn_p:
             return self.fn(depth - 1, nested=True)
+        if self.nobrace and r.random() < 0.12:
+            # a brace-less structure directly containing another structure: if (a) if (b) ..., for (..) while (..) ...
+            inner = ["Simple", []]
+            for _ in range(6):
+                inner = self.stmt(depth - 1)
+                if kind_name(inner) in ("If", "For", "ForIn", "While", "DoWhile", "Try", "Switch"):
+                    break
+            return [r.choice(["If", "If", "For", "While"]), [inner], {"nobrace": True}]
         k = r.choice([k for k in self.kinds if k != "Simple"])
         if k == "If":
             cs = self.stmts(depth - 1, 0 if r.random() < 0.1 else 1, 2)
@@ -62,7 +70,7 @@ class Gen:
                 if not self.else_single_if_ok and len(body) == 1 and kind_name(body[0]) == "If":
                     body.append(["Simple", []])
                 cs.append(["Else", body])
-            return ["If", cs]
+            return self._maybe_nobrace(["If", cs])
         if k == "Try":
             cs = self.stmts(depth - 1, 1, 2)
             n_h = r.choice([0, 1, 1, 2])
@@ -74,7 +82,16 @@ class Gen:
             return ["Try", cs]
         if k == "Switch":
             return ["Switch", [["Case", self.stmts(depth - 1, 1, 2)] for _ in range(r.randint(1, 3))]]
-        return [k, self.stmts(depth - 1, 1, 2)]
+        node = [k, self.stmts(depth - 1, 1, 2)]
+        return self._maybe_nobrace(node)
+
+    def _maybe_nobrace(self, node):
+        """TS/JS: a control structure whose body is ONE statement may be written without braces
+        (`if (a)\n  if (b) ...`); the parse tree then has no statement_block, which is transparent for depth"""
+        if self.nobrace and kind_name(node) in ("If", "For", "ForIn", "While") and len(node[1]) == 1 \
+                and kind_name(node[1][0]) not in ("Fn", "Class", "Elif", "Else") and self.rng.random() < 0.5:
+            node.append({"nobrace": True})
+        return node
 
     def fn(self, depth, nested=False, method=False):
         fk = "FMethod" if method else self.rng.choice(self.fkinds)
@@ -246,6 +263,13 @@ class Renderer:
     def n_ts(self, n, level):
         k, cs = kind_name(n), n[1]
         e = self.emit
+        nobrace = len(n) > 2 and isinstance(n[2], dict) and n[2].get("nobrace")
+        if nobrace:
+            head = {"If": f"if ({self.cond()})", "For": "for (let i = 0; i < n; i++)", "ForIn": f"for (const k of {self.cond()})",
+                    "While": f"while ({self.cond()})"}[k]
+            e(level, head)
+            self.node(cs[0], level + 1)
+            return
         if k == "Simple":
             e(level, f"x{self.cond()}();")
         elif k == "If":
